@@ -2,8 +2,10 @@ package checks
 
 import (
 	"bytes"
+	"context"
 	"fmt"
 	"io"
+	gofs "io/fs"
 	"os"
 	"path/filepath"
 	"sort"
@@ -30,13 +32,24 @@ type c11Case struct {
 	Tree     *h.Tree    `json:"tree"`
 	Levels   []c11Level `json:"levels"` // innermost first
 	Capacity int        `json:"capacity"`
+	// Wrap: the stack handed to Send is wrapped in a pass-through FS of a type the
+	// library does not know (callers compose and wrap views freely)
+	Wrap bool `json:"wrap,omitempty"`
 }
+
+// passFS forwards to another FS.
+type passFS struct{ inner fsutil.FS }
+
+func (p passFS) Walk(ctx context.Context, target string, fn gofs.WalkDirFunc) error {
+	return p.inner.Walk(ctx, target, fn)
+}
+func (p passFS) Open(name string) (io.ReadCloser, error) { return p.inner.Open(name) }
 
 var c11TreeCfg = h.TreeCfg{
 	MaxEntries: 14, MaxDepth: 3,
 	Names:     []string{"a", "b", "c", "ab", "a-b", "a.b", "sub", "sub-x", "sub.txt", "d", "x", "k"},
 	Kinds:     []h.Kind{h.KFile, h.KFile, h.KFile, h.KFile, h.KSymlink, h.KFifo, h.KFifo},
-	Hardlinks: true, SpecialLinks: true, BigFiles: false,
+	Hardlinks: true, SpecialLinks: true, BigFiles: false, Xattrs: true, XattrNS: []string{"user.", "trusted."},
 	SymTargets: []string{"a", "b", "../a", "/a", "sub", "../sub/a", "dangling", "/b/c", "."},
 }
 
@@ -72,6 +85,7 @@ func genC11(t *rapid.T) *c11Case {
 		c.Levels[li].Exclude = append(c.Levels[li].Exclude, p)
 	}
 	c.Capacity = rapid.SampledFrom([]int{0, 8, 64}).Draw(t, "cap")
+	c.Wrap = rapid.IntRange(0, 2).Draw(t, "wrap") == 0
 	return c
 }
 
@@ -278,7 +292,12 @@ func c11Check(env *h.Env, c *c11Case) error {
 	}
 
 	// (1)+(2) transfer
-	res := h.RunSync(view, dstDir, h.SyncOpt{Capacity: c.Capacity})
+	var sendView fsutil.FS = view
+	if c.Wrap {
+		env.Class("wrapped-view")
+		sendView = passFS{view}
+	}
+	res := h.RunSync(sendView, dstDir, h.SyncOpt{Capacity: c.Capacity})
 	if res.Stuck != "" {
 		env.Class("stuck")
 		return nil
